@@ -247,6 +247,23 @@ def _offsets(ctx, prog, wt, rd):
                     x = strip(c.op_term(a, (bi, None)))
                     if isinstance(x, tuple) and x[0] == 'const' and x[1] == 'str':
                         strs.append(x[2])
+    # every path of the writer helper that does not print `deg(<degrees>)` must be the exact-zero path: any other shortcut
+    # (a rounding threshold, say) writes a non-zero offset as a different number
+    short_ok = True
+    short_found = []
+    for t, d, rb in dg.return_values():
+        if mir.contains(t, lambda x: x[0] == 'call' and cname(x[1]) == 'Arguments::new'):
+            continue
+        gs = [(strip(g), opw.truth(k)) for g, k, sw in dg.guard_terms(d[1])]
+        exact = any(isinstance(g, tuple) and g[0] == 'bin' and g[1] == 'Eq' and v is True and util.const_val(g[3]) == 0.0 and util.param_index(g[2]) == 1 for g, v in gs) or \
+            any(isinstance(g, tuple) and g[0] == 'bin' and g[1] == 'Ne' and v is False and util.const_val(g[3]) == 0.0 and util.param_index(g[2]) == 1 for g, v in gs)
+        lit = mir.subterms(t, lambda x: x[0] == 'const' and x[1] == 'str')
+        zero_lit = [x[2] for x in lit] in (['0'], ['0.0'], ['deg(0)'], ['deg(0.0)'])
+        short_found.append('%s when %s' % ([x[2] for x in lit], [show(g, maxdepth=4) + '=' + str(v) for g, v in gs]))
+        if not (exact and zero_lit):
+            short_ok = False
+    ctx.check(short_ok, 'R19.2', 'offsets/zero-shortcut', dg.where(0), dg.path,
+              'the writer may abbreviate an offset to `0` only when it is exactly 0.0: %s' % short_found, found=str(short_found), detail=str(short_found))
     rconv = {cname(callee_name(t)) for bi, t in pd.calls()} | {cname(callee_name(t)) for c in util.closure_bodies(prog, pd.path) for bi, t in c.calls()}
     ok = lits[:1] == ['deg('] and lits[-1:] == [')'] and 'deg(' in strs and ')' in strs and conv == {'f64::to_degrees'} and 'f64::to_radians' in rconv
     ctx.check(ok, 'R19.2', 'offsets/deg-syntax', pd.where(0), pd.path,
